@@ -149,13 +149,16 @@ theorem faker_ctor :
       ["Faker(locale, use_weighting=False)", "FakeNames(faker, faker_context)"] := by decide
 theorem faker_class_attrs :
     Gen.FakeContact.fakerClassAttrs = "set(dir(Faker)).union(dir(Generator))" := by decide
-/-- lower-case the spelling, `dict.get` with `NotImplemented` as default, call, remember under the
-    key without underscores, return -/
+/-- lower-case the spelling, `dict.get` with `NotImplemented` as default, **fall back to the key
+    without underscores** (fix 6b5b124 — the second step of the model's `getFake`), call, remember
+    under the key without underscores, return -/
 theorem get_fake_data :
     Gen.FakeContact.getFakeData =
       ["local_faker_vars = self.faker_context.local_vars()", "name = origname.lower()",
-       "meth = self.fake_names.get(name, NotImplemented)", "if meth != NotImplemented",
-       "ret = meth(*args, **kwargs)", "local_faker_vars[name.replace('_', '')] = ret",
-       "return ret"] := by decide
+       "meth = self.fake_names.get(name, NotImplemented)", "if meth == NotImplemented",
+       "  meth = self.fake_names.get(name.replace('_', ''), NotImplemented)",
+       "if meth != NotImplemented",
+       "  ret = meth(*args, **kwargs)", "  local_faker_vars[name.replace('_', '')] = ret",
+       "  return ret"] := by decide
 
 end SnowModel.Props.C18Bridge
